@@ -71,10 +71,11 @@ structure Ctx where
 
 def Ctx.alpn (c : Ctx) : List Name := parseALPN c.alpnCfg
 
-/-- `tlsContext.buildMatch`: CN (if any), SANs, NextProtos and server_name (if set), lower-cased, in ONE set -/
+/-- `tlsContext.buildMatch`: CN (if any), the non-empty SANs, NextProtos and server_name (if set), lower-cased, in ONE
+set (proved equal to the regenerated function: Lemmas/TlsMatch `gen_buildMatch_eq`) -/
 def buildMatch (c : Ctx) : List Name :=
-  (if c.cn.length > 0 then [lower c.cn] else []) ++ c.sans.map lower ++ c.alpn.map lower ++
-    (if c.serverName.length > 0 then [lower c.serverName] else [])
+  (if c.cn.length > 0 then [lower c.cn] else []) ++ (c.sans.filter (fun s => s.length > 0)).map lower ++
+    c.alpn.map lower ++ (if c.serverName.length > 0 then [lower c.serverName] else [])
 
 def Ctx.sniMatch (c : Ctx) (sni : Name) : Bool := matchedServerName (buildMatch c) sni
 def Ctx.alpnMatch (c : Ctx) (protos : List Name) : Bool := matchedALPN (buildMatch c) protos
